@@ -7,7 +7,10 @@ from .. import gen, hist
 from ..twin import TwinExec, diff_states, observable_state
 
 ALIASES = {"ci": "commit", "st": "status -s", "lg": "log --oneline", "c2": "ci", "co": "checkout",
-           "sh": "!git status -s", "amend": "commit --amend --no-edit", "qs": "-c core.abbrev=9 status -s"}
+           "sh": "!git status -s", "amend": "commit --amend --no-edit", "qs": "-c core.abbrev=9 status -s",
+           # quoting: git does not treat a backslash inside single quotes as an escape
+           "fmt": "log --format='%s\\t%an' -3", "gr": "grep -c -e 'L[0-9]\\+ ' -- .", "dq": "log --format=\"%h\\\\%s\" -2",
+           "cm": "commit --allow-empty -q -m 'C:\\tmp\\notes and \\n text'", "sp": "log  --oneline   -2"}
 
 READ_ONLY = [
     ["status", "--porcelain"], ["status", "-s", "-b"], ["--no-pager", "log", "--oneline", "-5"],
@@ -16,7 +19,7 @@ READ_ONLY = [
     ["-C", ".", "rev-parse", "--abbrev-ref", "HEAD"], ["rev-parse", "HEAD"], ["cat-file", "-p", "HEAD"],
     ["ls-tree", "-r", "HEAD"], ["diff", "--stat"], ["diff", "--cached", "--name-only"], ["show", "--stat", "--format=%s", "HEAD"],
     ["branch", "-a"], ["branch", "--show-current"], ["for-each-ref", "refs/heads"], ["stash", "list"],
-    ["st"], ["lg", "-3"], ["sh"], ["qs"], ["frobnicate"], ["commit", "--no-such-flag"], ["--version"], ["version"],
+    ["st"], ["lg", "-3"], ["sh"], ["qs"], ["fmt"], ["gr"], ["dq"], ["sp"], ["fmt"], ["gr"], ["frobnicate"], ["commit", "--no-such-flag"], ["--version"], ["version"],
     ["log", "--no-such-option"], ["-c"], ["--no-such-global", "status"], ["ls-files", "-s"], ["ls-files", "--", "."],
     ["diff", "HEAD", "--", "."], ["blame", "--porcelain", "HEAD", "--", "{FILE}"], ["shortlog", "-s", "HEAD"], ["describe", "--always"],
     ["config", "--get", "user.name"], ["show-ref", "--heads"], ["reflog", "-3", "--format=%gs"],
@@ -25,11 +28,11 @@ READ_ONLY = [
     ["log", "-1", "--format=%H", "--", "nonexistent"], ["-p", "log", "-1", "--format=%s"], ["--paginate", "status", "-s"],
 ]
 MUTATING = [
-    ["tag", "t{N}"], ["branch", "b{N}"], ["tag", "-d", "t{N}"], ["ci", "--allow-empty", "-m", "empty{N}"],
+    ["tag", "t{N}"], ["branch", "b{N}"], ["cm"], ["cm"], ["tag", "-d", "t{N}"], ["ci", "--allow-empty", "-m", "empty{N}"],
     ["commit", "--allow-empty", "-q", "-m", "e{N}"], ["mv", "{FILE}", "{FILE}.moved"], ["rm", "-q", "--cached", "{FILE}"],
-    ["revert", "--no-edit", "HEAD"], ["add", "-N", "."], ["reset", "-q"], ["gc", "-q"], ["update-index", "--refresh"],
+    ["revert", "--no-edit", "HEAD"], ["add", "-N", "."], ["reset", "-q"], ["update-index", "--refresh"],
     ["checkout", "-q", "--detach"], ["checkout", "-q", "-"], ["notes", "add", "-f", "-m", "user note", "HEAD"],
-    ["config", "core.abbrev", "10"], ["amend"], ["clean", "-n"], ["worktree", "list"], ["pack-refs", "--all"],
+    ["config", "core.abbrev", "10"], ["amend"], ["clean", "-n"], ["worktree", "list"],
     ["fsck", "--no-dangling", "--no-progress"],
 ]
 
@@ -69,7 +72,7 @@ class C06(HistoryProp):
             "status, stdout, HEAD, refs outside refs/notes/ai*, index, work-tree bytes, stash, in-progress state and the "
             "user-hook log must be equal. distinct = digest of the command sequence; non-trivial = at least one hooked "
             "command (commit/rebase/...) ran with AI state present")
-    assumptions = ["ref/object census commands are generated only in forms that do not list the AI notes namespaces",
+    assumptions = ["ref/object census commands (for-each-ref without pattern, count-objects, gc, pack-refs --all) are not generated or only in forms that do not touch the AI notes namespaces",
                    "stderr is not compared (the property speaks of stdout and exit status)"]
     expected_probes = ["extra.read_only", "extra.mutating", "ai_edits"]
 
